@@ -55,7 +55,7 @@ CHECKS = {
         category='model_checking', design_ref='DESIGN.md section 3, C05',
         technique='explicit enumeration of construction histories (request point x variable x owner x embedding places x country configuration) on the real objects + all topology specs; closure/canonical-name/placeholder/meaning oracle on the emitted text via the independent reader',
         text='Every construction history of the product: GetVariableName requested right after the sector exists / after all sectors / after early full-code generation (LogInfo), embedded in up to 2 (quick) / 3 (thorough) of 13 places (incl. two placeholders in one row, a name clash, a caller editing a returned list), '
-             'with one country, two countries, an external sector, a country / external sector added after the early generation, or an unrelated Model started mid-way; plus every topology spec within the deviation bound. Every left-hand side once, canonical names, closed, no _<id>__ token, meaning preserved (judged through the harness's own record of which variable every handed-out name stands for; one name for two variables is a violation).',
+             'with one country, two countries, an external sector, a country / external sector added after the early generation, or an unrelated Model started mid-way; plus every topology spec within the deviation bound. Every left-hand side once, canonical names, closed, no _<id>__ token, meaning preserved (judged through the record kept by the harness of which variable every handed-out name stands for; one name for two variables is a violation).',
         note='Trusted: mc/exact.read_block and evaluator. A name that was canonical when handed out and is embedded by the user before a further country is added cannot be rewritten by any library; that history is outside the alphabet.'),
     'C10': dict(
         category='exploration', design_ref='DESIGN.md section 3, C10',
